@@ -27,6 +27,8 @@ TOL = 1e-9
 
 
 def make_case(seed: int, tier: str, prop: str, opts=None) -> Dict[str, Any]:
+    if h64(seed, "c17family") % 100 < 6:
+        return gen.gen_rt_burst(seed, tier)      # many events booked in arbitrary order, long before they are due
     return gen.gen_rt(seed, tier)
 
 
